@@ -436,6 +436,19 @@ func c03Multi(r *ck.Run, cfg gw.Opts, ci int) {
 			Req: func(w *World) *gw.Req {
 				return NewReq("PUT", gw.ObjPath(w.Bucket, "dir/stolen"), "", H("x-amz-copy-source", w.Bucket+"/obj1"), nil)
 			}},
+		{Name: "CopyObject source-key-denied-exactly, source named with a versionId", NoCanaryIn: "bk-main/dir/stolen",
+			Stmts: func(w *World) []refStmt {
+				return []refStmt{{"Allow", []string{"usr3"}, []string{"s3:*"}, both(w.Bucket)}, {"Deny", []string{"usr3"}, []string{"s3:*"}, []string{w.Bucket + "/obj1"}}}
+			},
+			Req: func(w *World) *gw.Req {
+				// a real version id where the gateway has a versioning directory
+				vid := "null"
+				if w.F.G.Opts.Versioning {
+					Must(w.F.Do(gw.Root, "PUT", "/"+w.Bucket, "versioning", nil, []byte("<VersioningConfiguration><Status>Enabled</Status></VersioningConfiguration>")), "enable versioning")
+					vid = Must(w.F.Put(gw.Root, w.Bucket, "obj1", []byte(canaryObj1+" second version")), "second version").Header.Get("x-amz-version-id")
+				}
+				return NewReq("PUT", gw.ObjPath(w.Bucket, "dir/stolen"), "", H("x-amz-copy-source", w.Bucket+"/obj1?versionId="+vid), nil)
+			}},
 		{Name: "CopyObject destination-denied", ProtectedPaths: []string{"root:bk-main/obj1"},
 			Stmts: func(w *World) []refStmt {
 				return []refStmt{{"Allow", []string{"usr3"}, []string{"s3:*"}, []string{w.Bucket, w.Bucket + "/dir/*"}}}
